@@ -735,6 +735,15 @@ func TestCheck(t *testing.T) {
 		}
 		r.DecodeReplay(&probe)
 		switch probe.Layer {
+		case "A-close":
+			var c CaseClose
+			r.DecodeReplay(&c)
+			k, d := executeClose(t, c)
+			r.Eval(1)
+			r.Transition(4)
+			if k != "" {
+				r.Fail("A|"+k, fmt.Sprintf("%s: %s", c, d), c.Up+c.Down, c)
+			}
 		case "T":
 			var c CaseT
 			r.DecodeReplay(&c)
@@ -919,6 +928,22 @@ func TestCheck(t *testing.T) {
 				r.Sample(map[string]any{"case": c.String(), "outcome": k})
 			}
 			r.Progress(idx + 1)
+		}
+		idx++
+	}
+	// Layer A-close: close before the receiver has read
+	for _, c := range casesClose(clientMTU()) {
+		if r.Mine(idx) && !r.OverBudget() {
+			c := c
+			var k, d string
+			r.Guard(idx, 120*time.Second, "hang|A-close", c.String(), c, func() { k, d = executeClose(t, c) })
+			r.Eval(1)
+			r.Transition(4)
+			r.State(mc.Hash("A-close", c.String(), k))
+			r.Nontrivial(mc.Hash(c.String()))
+			if k != "" {
+				r.Fail("A|"+k, fmt.Sprintf("%s: %s", c, d), c.Up+c.Down, c)
+			}
 		}
 		idx++
 	}
